@@ -4,5 +4,5 @@ CONSTANTS
   MaxSet = 1
   MaxReq = 0
   Emitting = TRUE
-INVARIANTS LastPostedRules LoadedDefaults ExcludedNeverServed BlockedNameNeverServed SilentOnDatagram OthersServed ExceptedNameIsServed PresentationIrrelevant TypeIrrelevantForPlainPatterns AllowModeIgnoresDisallowed OnlyIdsAllowedExcludesAnonymous BlockModeOneMatchSuffices EmptyListsExcludeNobody EntrySpellingIrrelevant InvalidIdNeverServed
+INVARIANTS LastPostedRules LoadedDefaults ExcludedNeverServed BlockedNameNeverServed SilentOnDatagram OthersServed ExceptedNameIsServed HostSpellingIrrelevant PresentationIrrelevant TypeIrrelevantForPlainPatterns AllowModeIgnoresDisallowed OnlyIdsAllowedExcludesAnonymous BlockModeOneMatchSuffices EmptyListsExcludeNobody EntrySpellingIrrelevant InvalidIdNeverServed
 PROPERTIES DeniedMovesNothing ServedIsObserved SetListsMovesNothing
